@@ -1132,6 +1132,100 @@ pub open spec fn vx_tables_ok<R: Registry>(m: IMap<archetype::IdentifierRef<R>, 
         (#[trigger] m[k]).wf() && m[k].key() == k && m[k].agrees(a)
 }
 
+/// `ks` lists every stored table key exactly once
+pub open spec fn vx_enum<R: Registry>(m: IMap<archetype::IdentifierRef<R>, archetype::Archetype<R>>, ks: Seq<archetype::IdentifierRef<R>>) -> bool {
+    &&& forall|i: int, j: int| 0 <= i < j < ks.len() ==> ks[i] != ks[j]
+    &&& forall|k: archetype::IdentifierRef<R>| m.dom().contains(k) == ks.contains(k)
+}
+/// sum of the lengths of the tables under `ks`
+pub open spec fn vx_sum_keys<R: Registry>(m: IMap<archetype::IdentifierRef<R>, archetype::Archetype<R>>, ks: Seq<archetype::IdentifierRef<R>>) -> nat
+    decreases ks.len()
+{
+    if ks.len() == 0 { 0 } else { vx_sum_keys(m, ks.drop_last()) + m[ks.last()].length as nat }
+}
+/// C13: the number of stored entities (rows of all tables; independent of the enumeration, see
+/// lemma_total_rows)
+pub open spec fn vx_total_rows<R: Registry>(m: IMap<archetype::IdentifierRef<R>, archetype::Archetype<R>>) -> nat {
+    vx_sum_keys(m, choose|ks: Seq<archetype::IdentifierRef<R>>| vx_enum(m, ks))
+}
+pub proof fn lemma_sum_remove<R: Registry>(m: IMap<archetype::IdentifierRef<R>, archetype::Archetype<R>>, b: Seq<archetype::IdentifierRef<R>>, j: int)
+    requires 0 <= j < b.len(),
+    ensures vx_sum_keys(m, b) == vx_sum_keys(m, b.remove(j)) + m[b[j]].length as nat
+    decreases b.len()
+{
+    if j == b.len() - 1 {
+        assert(b.remove(j) =~= b.drop_last());
+    } else {
+        assert(b.remove(j).drop_last() =~= b.drop_last().remove(j));
+        assert(b.remove(j).last() == b.last());
+        lemma_sum_remove(m, b.drop_last(), j);
+    }
+}
+pub open spec fn vx_nodup<K>(a: Seq<K>) -> bool { forall|i: int, j: int| 0 <= i < j < a.len() ==> a[i] != a[j] }
+/// two duplicate-free listings of the same key set have the same sum
+pub proof fn lemma_sum_perm<R: Registry>(m: IMap<archetype::IdentifierRef<R>, archetype::Archetype<R>>, a: Seq<archetype::IdentifierRef<R>>, b: Seq<archetype::IdentifierRef<R>>)
+    requires vx_nodup(a), vx_nodup(b), forall|k: archetype::IdentifierRef<R>| a.contains(k) == b.contains(k),
+    ensures vx_sum_keys(m, a) == vx_sum_keys(m, b)
+    decreases a.len()
+{
+    if a.len() == 0 {
+        if b.len() > 0 { assert(b.contains(b[0])); assert(a.contains(b[0])); }
+    } else {
+        let x = a.last();
+        assert(a.contains(x));
+        assert(b.contains(x));
+        let j = choose|j: int| 0 <= j < b.len() && b[j] == x;
+        let a1 = a.drop_last();
+        let b1 = b.remove(j);
+        assert(vx_nodup(a1));
+        assert(vx_nodup(b1)) by {
+            assert forall|p: int, q: int| 0 <= p < q < b1.len() implies b1[p] != b1[q] by {
+                let pp = if p < j { p } else { p + 1 };
+                let qq = if q < j { q } else { q + 1 };
+                assert(b1[p] == b[pp] && b1[q] == b[qq]);
+            }
+        }
+        assert forall|k: archetype::IdentifierRef<R>| a1.contains(k) == b1.contains(k) by {
+            if a1.contains(k) {
+                let p = choose|p: int| 0 <= p < a1.len() && a1[p] == k;
+                assert(a[p] == k); assert(k != x);
+                assert(a.contains(k)); assert(b.contains(k));
+                let q = choose|q: int| 0 <= q < b.len() && b[q] == k;
+                assert(q != j);
+                let qq = if q < j { q } else { q - 1 };
+                assert(b1[qq] == k);
+            }
+            if b1.contains(k) {
+                let q = choose|q: int| 0 <= q < b1.len() && b1[q] == k;
+                let qq = if q < j { q } else { q + 1 };
+                assert(b[qq] == k); assert(qq != j); assert(k != x);
+                assert(b.contains(k)); assert(a.contains(k));
+                let p = choose|p: int| 0 <= p < a.len() && a[p] == k;
+                assert(p != a.len() - 1);
+                assert(a1[p] == k);
+            }
+        }
+        lemma_sum_perm(m, a1, b1);
+        lemma_sum_remove(m, b, j);
+    }
+}
+pub proof fn lemma_total_rows<R: Registry>(m: IMap<archetype::IdentifierRef<R>, archetype::Archetype<R>>, ks: Seq<archetype::IdentifierRef<R>>)
+    requires vx_enum(m, ks),
+    ensures vx_total_rows(m) == vx_sum_keys(m, ks)
+{
+    let c = choose|c: Seq<archetype::IdentifierRef<R>>| vx_enum(m, c);
+    assert(vx_enum(m, c));
+    assert forall|k: archetype::IdentifierRef<R>| c.contains(k) == ks.contains(k) by { assert(m.dom().contains(k) == c.contains(k)); }
+    lemma_sum_perm(m, c, ks);
+}
+pub proof fn lemma_sum_take_step<R: Registry>(m: IMap<archetype::IdentifierRef<R>, archetype::Archetype<R>>, ks: Seq<archetype::IdentifierRef<R>>, n: int)
+    requires 0 <= n < ks.len(),
+    ensures vx_sum_keys(m, ks.take(n + 1)) == vx_sum_keys(m, ks.take(n)) + m[ks[n]].length as nat
+{
+    assert(ks.take(n + 1).drop_last() =~= ks.take(n));
+    assert(ks.take(n + 1).last() == ks[n]);
+}
+
 pub mod entities {
     use super::*;
 pub struct Batch<Entities> {
@@ -1761,11 +1855,32 @@ impl<R: Registry> VxTableSeq<R> {
 #[verifier::external_body]
 pub fn vx_custom_error() -> (e: VxErr) { unimplemented!() }
 
+/// sum of the lengths of the tables read so far
+pub open spec fn vx_sum_tables<R: Registry>(ts: Seq<archetype::Archetype<R>>) -> nat
+    decreases ts.len()
+{
+    if ts.len() == 0 { 0 } else { vx_sum_tables(ts.drop_last()) + ts.last().length as nat }
+}
+pub open spec fn vx_keys_of<R: Registry>(ts: Seq<archetype::Archetype<R>>) -> Seq<archetype::IdentifierRef<R>> {
+    Seq::new(ts.len(), |j: int| ts[j].key())
+}
+pub proof fn lemma_sum_tables_keys<R: Registry>(m: IMap<archetype::IdentifierRef<R>, archetype::Archetype<R>>, ts: Seq<archetype::Archetype<R>>)
+    requires forall|j: int| 0 <= j < ts.len() ==> m[(#[trigger] ts[j]).key()] == ts[j],
+    ensures vx_sum_keys(m, vx_keys_of(ts)) == vx_sum_tables(ts)
+    decreases ts.len()
+{
+    if ts.len() > 0 {
+        assert(vx_keys_of(ts).drop_last() =~= vx_keys_of(ts.drop_last()));
+        assert(vx_keys_of(ts).last() == ts.last().key());
+        lemma_sum_tables_keys(m, ts.drop_last());
+    }
+}
+
 impl<R> Archetypes<R> where R: Registry {
     #[verifier::external_body]
     pub fn vx_visit_seq(len: &mut usize, seq: &mut VxTableSeq<R>) -> (r: Result<Archetypes<R>, VxErr>)
         requires
-            *old(len) == old(seq).total(),
+            *old(len) == old(seq).total() && *old(len) == 0,
             old(seq).yielded().len() == 0,
         ensures
             r is Ok ==> r->Ok_0.wf() && vx_tables_wf(r->Ok_0@),
@@ -1774,6 +1889,58 @@ impl<R> Archetypes<R> where R: Registry {
             r is Ok ==> forall|k: archetype::IdentifierRef<R>| r->Ok_0@.dom().contains(k) ==> (exists|j: int| 0 <= j < final(seq).yielded().len() && (#[trigger] final(seq).yielded()[j]).key() == k),
             r is Ok ==> forall|a: int, b: int| 0 <= a < b < final(seq).yielded().len() ==> vx_key_bits((#[trigger] final(seq).yielded()[a]).key()) != vx_key_bits((#[trigger] final(seq).yielded()[b]).key()),
             r is Ok ==> *final(len) == final(seq).total(),
+            r is Ok ==> *final(len) == vx_total_rows(r->Ok_0@),
+    {
+        unimplemented!()
+    }
+
+}
+
+
+// ---- R9/A10: the serde Serializer the table set is written to, and the borrowing table iterator
+#[verifier::external_body]
+pub struct VxSeqSerializer { _p: () }
+#[verifier::external_body]
+pub struct VxSeqOk { _p: () }
+pub struct VxTableTok { pub id: int }
+/// the abstract token of a serialized table (K-deser-arch decides the element encoding, bounded)
+pub uninterp spec fn vx_ser_table<R: Registry>(t: archetype::Archetype<R>) -> VxTableTok;
+impl VxSeqOk { pub uninterp spec fn elems(&self) -> Seq<VxTableTok>; }
+#[verifier::external_body]
+#[verifier::accept_recursive_types(R)]
+pub struct VxTableRefIter<'a, R: Registry> { p: PhantomData<&'a R> }
+impl<'a, R: Registry> VxTableRefIter<'a, R> {
+    pub uninterp spec fn rest(&self) -> Seq<archetype::Archetype<R>>;
+    /// A1: `Iterator::filter(p)`: the items `p` accepts, in order
+    #[verifier::external_body]
+    pub fn filter<F: Fn(&&'a archetype::Archetype<R>) -> bool>(self, f: F) -> (r: VxTableRefIter<'a, R>)
+        requires forall|t: &&'a archetype::Archetype<R>| #[trigger] f.requires((t,)),
+        ensures r.rest().len() <= self.rest().len(),
+                forall|j: int| 0 <= j < r.rest().len() ==> exists|i: int| 0 <= i < self.rest().len() && self.rest()[i] == #[trigger] r.rest()[j],
+                (forall|t: &&'a archetype::Archetype<R>| f.ensures((t,), true)) ==> r.rest() == self.rest()
+    { unimplemented!() }
+}
+impl VxSeqSerializer {
+    /// serde `Serializer::is_human_readable()`: any answer
+    #[verifier::external_body]
+    pub fn is_human_readable(&self) -> (r: bool) { unimplemented!() }
+    /// serde `Serializer::collect_seq(iter)`: one element per item of the iterator, in order
+    #[verifier::external_body]
+    pub fn collect_seq<'a, R: Registry>(self, it: VxTableRefIter<'a, R>) -> (r: Result<VxSeqOk, VxErr>)
+        ensures r is Ok ==> r->Ok_0.elems() == Seq::new(it.rest().len(), |j: int| vx_ser_table(it.rest()[j])) { unimplemented!() }
+}
+impl<R: Registry> Archetypes<R> {
+    /// R14/A3: `Archetypes::iter()` (hashbrown RawIter): every stored table once, in some order
+    #[verifier::external_body]
+    pub fn vx_iter<'a>(&'a self) -> (r: VxTableRefIter<'a, R>)
+        ensures exists|ks: Seq<archetype::IdentifierRef<R>>| self.raw_archetypes.enumerates(ks) && r.rest() == Seq::new(ks.len(), |j: int| self@[ks[j]]) { unimplemented!() }
+}
+
+impl<R> Archetypes<R> where R: Registry {
+    #[verifier::external_body]
+    pub fn serialize(&self, serializer: VxSeqSerializer) -> (r: Result<VxSeqOk, VxErr>)
+        ensures
+            r is Ok ==> exists|ks: Seq<archetype::IdentifierRef<R>>| self.raw_archetypes.enumerates(ks) && r->Ok_0.elems() == Seq::new(ks.len(), |j: int| vx_ser_table(self@[ks[j]])),
     {
         unimplemented!()
     }
@@ -1792,6 +1959,114 @@ impl<R> Archetypes<R> where R: Registry {
         unimplemented!()
     }
 
+}
+
+
+// ---- C16: the relation Archetypes::eq computes (its proved postcondition) is reflexive and
+// symmetric, given that the per-table comparison is (A8: user PartialEq is an equivalence; K-eq:
+// component_eq is pointwise equality of identifiers and cells)
+pub open spec fn vx_archs_eq_spec<R: Registry>(a: Archetypes<R>, b: Archetypes<R>) -> bool {
+    a.raw_archetypes.count() == b.raw_archetypes.count()
+        && forall|k: archetype::IdentifierRef<R>| a@.dom().contains(k) ==> vx_has_equal_partner(#[trigger] a@[k], b@)
+}
+/// A3: a hashbrown table holds finitely many elements; `len()` is their number
+#[verifier::external_body]
+pub proof fn vx_axiom_count<R: Registry>(t: &VxRawTable<R>)
+    ensures exists|ks: Seq<archetype::IdentifierRef<R>>| t.enumerates(ks) && ks.len() == t.count()
+{ }
+/// pigeonhole: an injective map from the elements of a duplicate-free list into the elements of
+/// a duplicate-free list of the same length hits every element
+pub proof fn lemma_injective_onto<K>(a: Seq<K>, b: Seq<K>, g: spec_fn(K) -> K)
+    requires vx_nodup(a), vx_nodup(b), a.len() == b.len(),
+             forall|i: int| 0 <= i < a.len() ==> b.contains(#[trigger] g(a[i])),
+             forall|i: int, j: int| 0 <= i < j < a.len() ==> g(a[i]) != g(a[j]),
+    ensures forall|y: K| b.contains(y) ==> exists|i: int| 0 <= i < a.len() && #[trigger] g(a[i]) == y
+    decreases a.len()
+{
+    if a.len() > 0 {
+        let x = a.last();
+        let gx = g(x);
+        assert(b.contains(g(a[a.len() - 1])));
+        let j = choose|j: int| 0 <= j < b.len() && b[j] == gx;
+        let a1 = a.drop_last();
+        let b1 = b.remove(j);
+        assert(vx_nodup(a1));
+        assert(vx_nodup(b1)) by {
+            assert forall|p: int, q: int| 0 <= p < q < b1.len() implies b1[p] != b1[q] by {
+                let pp = if p < j { p } else { p + 1 };
+                let qq = if q < j { q } else { q + 1 };
+                assert(b1[p] == b[pp] && b1[q] == b[qq]);
+            }
+        }
+        assert forall|i: int| 0 <= i < a1.len() implies b1.contains(#[trigger] g(a1[i])) by {
+            assert(a1[i] == a[i]);
+            assert(b.contains(g(a[i])));
+            let q = choose|q: int| 0 <= q < b.len() && b[q] == g(a[i]);
+            assert(g(a[i]) != g(a[a.len() - 1]));
+            assert(q != j);
+            let qq = if q < j { q } else { q - 1 };
+            assert(b1[qq] == g(a1[i]));
+        }
+        assert forall|i: int, k: int| 0 <= i < k < a1.len() implies g(a1[i]) != g(a1[k]) by { assert(a1[i] == a[i] && a1[k] == a[k]); }
+        lemma_injective_onto(a1, b1, g);
+        assert forall|y: K| b.contains(y) implies exists|i: int| 0 <= i < a.len() && #[trigger] g(a[i]) == y by {
+            let q = choose|q: int| 0 <= q < b.len() && b[q] == y;
+            if q == j { assert(g(a[a.len() - 1]) == y); }
+            else {
+                let qq = if q < j { q } else { q - 1 };
+                assert(b1[qq] == y);
+                assert(b1.contains(y));
+                let i = choose|i: int| 0 <= i < a1.len() && #[trigger] g(a1[i]) == y;
+                assert(a1[i] == a[i]);
+                assert(g(a[i]) == y);
+            }
+        }
+    }
+}
+pub proof fn lemma_archs_eq_reflexive<R: Registry>(a: Archetypes<R>)
+    requires a.wf(), forall|t: archetype::Archetype<R>| #[trigger] vx_tables_eq(t, t),
+    ensures vx_archs_eq_spec(a, a)
+{
+    assert forall|k: archetype::IdentifierRef<R>| a@.dom().contains(k) implies vx_has_equal_partner(#[trigger] a@[k], a@) by {
+        assert(a@[k].key() == k);
+        assert(a@.dom().contains(k) && vx_key_bits(k) == vx_key_bits(a@[k].key()) && vx_tables_eq(a@[k], a@[k]));
+    }
+}
+pub proof fn lemma_archs_eq_symmetric<R: Registry>(a: Archetypes<R>, b: Archetypes<R>)
+    requires a.wf(), b.wf(), vx_archs_eq_spec(a, b),
+             forall|t: archetype::Archetype<R>, u: archetype::Archetype<R>| #[trigger] vx_tables_eq(t, u) ==> vx_tables_eq(u, t),
+    ensures vx_archs_eq_spec(b, a)
+{
+    a.lemma_single_table();
+    vx_axiom_count(&a.raw_archetypes);
+    vx_axiom_count(&b.raw_archetypes);
+    let ka = choose|ks: Seq<archetype::IdentifierRef<R>>| a.raw_archetypes.enumerates(ks) && ks.len() == a.raw_archetypes.count();
+    let kb = choose|ks: Seq<archetype::IdentifierRef<R>>| b.raw_archetypes.enumerates(ks) && ks.len() == b.raw_archetypes.count();
+    let g = |k: archetype::IdentifierRef<R>| choose|k2: archetype::IdentifierRef<R>| b@.dom().contains(k2) && vx_key_bits(k2) == vx_key_bits(a@[k].key()) && vx_tables_eq(a@[k], #[trigger] b@[k2]);
+    assert forall|i: int| 0 <= i < ka.len() implies kb.contains(#[trigger] g(ka[i])) && vx_key_bits(g(ka[i])) == vx_key_bits(ka[i]) && vx_tables_eq(a@[ka[i]], b@[g(ka[i])]) by {
+        assert(ka.contains(ka[i]));
+        assert(a@.dom().contains(ka[i]));
+        assert(vx_has_equal_partner(a@[ka[i]], b@));
+        assert(a@[ka[i]].key() == ka[i]);
+        assert(b@.dom().contains(g(ka[i])));
+    }
+    assert forall|i: int, j: int| 0 <= i < j < ka.len() implies g(ka[i]) != g(ka[j]) by {
+        assert(ka.contains(ka[i]) && ka.contains(ka[j]));
+        if g(ka[i]) == g(ka[j]) {
+            assert(vx_key_bits(ka[i]) == vx_key_bits(ka[j]));
+            assert(ka[i] == ka[j]);
+        }
+    }
+    lemma_injective_onto(ka, kb, g);
+    assert forall|k2: archetype::IdentifierRef<R>| b@.dom().contains(k2) implies vx_has_equal_partner(#[trigger] b@[k2], a@) by {
+        assert(kb.contains(k2));
+        let i = choose|i: int| 0 <= i < ka.len() && #[trigger] g(ka[i]) == k2;
+        let k = ka[i];
+        assert(ka.contains(k));
+        assert(b@[k2].key() == k2);
+        assert(vx_tables_eq(a@[k], b@[k2]));
+        assert(a@.dom().contains(k) && vx_key_bits(k) == vx_key_bits(b@[k2].key()) && vx_tables_eq(b@[k2], a@[k]));
+    }
 }
 
 
@@ -1834,6 +2109,431 @@ pub open spec fn vx_claimed_by<R: Registry>(s: int, free: Seq<entity::Identifier
     ||| exists|r: int| 0 <= r < rn && tn < keys.len() && (#[trigger] m[keys[tn]].ids()[r]).index == s
 }
 
+/// number of claimed slots that carry a location (C13: the entity count of the rebuilt allocator)
+pub open spec fn vx_opt_active<R: Registry>(s: Seq<Option<Slot<R>>>) -> nat
+    decreases s.len()
+{
+    if s.len() == 0 { 0 } else { vx_opt_active(s.drop_last()) + (if s.last() is Some && s.last()->0.location is Some { 1nat } else { 0nat }) }
+}
+pub proof fn lemma_opt_none<R: Registry>(s: Seq<Option<Slot<R>>>)
+    requires forall|i: int| 0 <= i < s.len() ==> (#[trigger] s[i]) is None,
+    ensures vx_opt_active(s) == 0
+    decreases s.len()
+{
+    if s.len() > 0 { assert(s.last() is None); lemma_opt_none(s.drop_last()); }
+}
+/// claiming an unclaimed slot adds one exactly when the claim carries a location
+pub proof fn lemma_opt_claim<R: Registry>(s: Seq<Option<Slot<R>>>, i: int, x: Option<Slot<R>>)
+    requires 0 <= i < s.len(), s[i] is None,
+    ensures vx_opt_active(s.update(i, x)) == vx_opt_active(s) + (if x is Some && x->0.location is Some { 1nat } else { 0nat })
+    decreases s.len()
+{
+    if i == s.len() - 1 {
+        assert(s.update(i, x).drop_last() =~= s.drop_last());
+    } else {
+        assert(s.update(i, x).drop_last() =~= s.drop_last().update(i, x));
+        lemma_opt_claim(s.drop_last(), i, x);
+    }
+}
+pub proof fn lemma_opt_unwrap<R: Registry>(s: Seq<Option<Slot<R>>>, t: Seq<Slot<R>>)
+    requires s.len() == t.len(), forall|i: int| 0 <= i < s.len() ==> (#[trigger] s[i]) is Some && t[i] == s[i]->0,
+    ensures vx_active_count(t) == vx_opt_active(s)
+    decreases s.len()
+{
+    if s.len() > 0 {
+        assert(s.last() is Some && t.last() == s.last()->0);
+        lemma_opt_unwrap(s.drop_last(), t.drop_last());
+    }
+}
+
+/// the exit state of the claiming loops makes a well-formed allocator that agrees with the tables
+pub proof fn lemma_de_end<R: Registry>(vx_sl: Seq<Option<Slot<R>>>, vx_fr: Seq<entity::Identifier>,
+    vx_m: IMap<archetype::IdentifierRef<R>, archetype::Archetype<R>>, keys: Seq<archetype::IdentifierRef<R>>, a: Allocator<R>)
+    requires
+        vx_enum(vx_m, keys),
+        forall|k: archetype::IdentifierRef<R>| vx_m.dom().contains(k) ==> (#[trigger] vx_m[k]).wf() && vx_m[k].key() == k,
+        vx_free_claimed(vx_sl, vx_fr, vx_fr.len() as int),
+        forall|j: int| 0 <= j < keys.len() ==> vx_rows_claimed(vx_sl, #[trigger] vx_m[keys[j]], keys[j], vx_m[keys[j]].length as int),
+        forall|s: int| 0 <= s < vx_sl.len() && (#[trigger] vx_sl[s]) is Some ==> vx_claimed_by(s, vx_fr, vx_fr.len() as int, vx_m, keys, keys.len() as int, 0),
+        forall|s: int| 0 <= s < vx_sl.len() ==> (#[trigger] vx_sl[s]) is Some,
+        vx_opt_active(vx_sl) == vx_sum_keys(vx_m, keys),
+        a.slots@.len() == vx_sl.len(), forall|s: int| 0 <= s < vx_sl.len() ==> (#[trigger] a.slots@[s]) == vx_sl[s]->0,
+        a.free@.len() == vx_fr.len(), forall|j: int| 0 <= j < vx_fr.len() ==> (#[trigger] a.free@[j]) == vx_fr[j].index,
+    ensures
+        a.wf(),
+        forall|k: archetype::IdentifierRef<R>| vx_m.dom().contains(k) ==> (#[trigger] vx_m[k]).agrees(&a),
+        vx_de_ids_stored(vx_m, &a),
+        a.active_count() == vx_total_rows(vx_m),
+        forall|j: int| 0 <= j < vx_fr.len() ==> (#[trigger] vx_fr[j]).index < vx_sl.len() && a.slots@[vx_fr[j].index as int].generation == vx_fr[j].generation,
+{
+            let n = keys.len() as int;
+            assert(a.slots@.len() == vx_sl.len());
+            assert forall|s: int| 0 <= s < vx_sl.len() implies (#[trigger] a.slots@[s]) == vx_sl[s]->0 && vx_sl[s] is Some by { }
+            // free list: in bounds, inactive, distinct
+            assert forall|j: int| 0 <= j < a.free@.len() implies (#[trigger] a.free@[j]) < a.slots@.len() && a.slots@[a.free@[j] as int].location is None by {
+                assert(a.free@[j] == vx_fr[j].index);
+                assert(vx_sl[vx_fr[j].index as int] == vx_free_slot::<R>(vx_fr[j]));
+            }
+            assert forall|i: int, j: int| 0 <= i < j < a.free@.len() implies a.free@[i] != a.free@[j] by {
+                assert(vx_fr[i].index != vx_fr[j].index);
+            }
+            // complete: an inactive slot was claimed by a free entry (rows claim active slots)
+            assert forall|s: int| 0 <= s < a.slots@.len() && (#[trigger] a.slots@[s]).location is None implies a.free@.contains(s as usize) by {
+                assert(vx_sl[s] is Some);
+                assert(vx_claimed_by(s, vx_fr, vx_fr.len() as int, vx_m, keys, n, 0));
+                if exists|j: int, q: int| 0 <= j < n && 0 <= q < vx_m[keys[j]].length && (#[trigger] vx_m[keys[j]].ids()[q]).index == s {
+                    let (j, q) = choose|j: int, q: int| 0 <= j < n && 0 <= q < vx_m[keys[j]].length && (#[trigger] vx_m[keys[j]].ids()[q]).index == s;
+                    assert(vx_rows_claimed(vx_sl, vx_m[keys[j]], keys[j], vx_m[keys[j]].length as int));
+                    assert(vx_sl[s] == vx_row_slot(vx_m[keys[j]], keys[j], q));
+                    assert(false);
+                }
+                let j = choose|j: int| 0 <= j < vx_fr.len() && (#[trigger] vx_fr[j]).index == s;
+                assert(a.free@[j] == s as usize);
+            }
+            assert(a.wf());
+            // entity count: active slots == claimed slots with a location == rows of all tables
+            lemma_opt_unwrap(vx_sl, a.slots@);
+            lemma_total_rows(vx_m, keys);
+            assert(a.active_count() == vx_total_rows(vx_m));
+            // every table agrees with the allocator
+            assert forall|k: archetype::IdentifierRef<R>| vx_m.dom().contains(k) implies (#[trigger] vx_m[k]).agrees(&a) by {
+                assert(keys.contains(k));
+                let j = choose|j: int| 0 <= j < n && keys[j] == k;
+                let tb = vx_m[k];
+                assert(tb.key() == k);
+                assert(vx_rows_claimed(vx_sl, vx_m[keys[j]], keys[j], vx_m[keys[j]].length as int));
+                assert forall|q: int| 0 <= q < tb.length implies a.resolves(#[trigger] tb.ids()[q])
+                    && a.view()[tb.ids()[q]] == (Location { identifier: tb.key(), index: q as usize }) by {
+                    assert(vx_sl[tb.ids()[q].index as int] == vx_row_slot(tb, k, q));
+                }
+            }
+            // every accepted identifier is stored
+            assert forall|id: entity::Identifier| a.resolves(id) implies ({
+                let l = #[trigger] a.view()[id];
+                vx_m.dom().contains(l.identifier) && l.index < vx_m[l.identifier].length && vx_m[l.identifier].ids()[l.index as int] == id
+            }) by {
+                let s = id.index as int;
+                assert(vx_sl[s] is Some);
+                assert(vx_claimed_by(s, vx_fr, vx_fr.len() as int, vx_m, keys, n, 0));
+                if exists|j: int| 0 <= j < vx_fr.len() && (#[trigger] vx_fr[j]).index == s {
+                    let j = choose|j: int| 0 <= j < vx_fr.len() && (#[trigger] vx_fr[j]).index == s;
+                    assert(vx_sl[s] == vx_free_slot::<R>(vx_fr[j]));
+                    assert(false);
+                }
+                let (j, q) = choose|j: int, q: int| 0 <= j < n && 0 <= q < vx_m[keys[j]].length && (#[trigger] vx_m[keys[j]].ids()[q]).index == s;
+                let tb = vx_m[keys[j]];
+                assert(keys.contains(keys[j]));
+                assert(vx_m.dom().contains(keys[j]));
+                assert(vx_rows_claimed(vx_sl, tb, keys[j], tb.length as int));
+                assert(vx_sl[s] == vx_row_slot(tb, keys[j], q));
+                assert(tb.ids()[q].generation == id.generation && tb.ids()[q].index == id.index);
+                assert(tb.ids()[q] == id);
+            }
+
+    assert forall|j: int| 0 <= j < vx_fr.len() implies (#[trigger] vx_fr[j]).index < vx_sl.len() && a.slots@[vx_fr[j].index as int].generation == vx_fr[j].generation by {
+        assert(vx_sl[vx_fr[j].index as int] == vx_free_slot::<R>(vx_fr[j]));
+    }
+}
+
+/// one step of the row-claiming loop: row `r` of table `t` claims its (so far unclaimed) slot
+pub proof fn lemma_de_row<R: Registry>(vx_pre: Seq<Option<Slot<R>>>, vx_new: Seq<Option<Slot<R>>>, vx_fr: Seq<entity::Identifier>,
+    vx_m: IMap<archetype::IdentifierRef<R>, archetype::Archetype<R>>, keys: Seq<archetype::IdentifierRef<R>>, t: int, r: int)
+    requires
+        0 <= t < keys.len(), vx_m[keys[t]].key() == keys[t], 0 <= r < vx_m[keys[t]].length,
+        vx_m[keys[t]].ids()[r].index < vx_pre.len(), vx_pre[vx_m[keys[t]].ids()[r].index as int] is None,
+        vx_new == vx_pre.update(vx_m[keys[t]].ids()[r].index as int, vx_row_slot(vx_m[keys[t]], keys[t], r)),
+        vx_free_claimed(vx_pre, vx_fr, vx_fr.len() as int),
+        forall|j: int| 0 <= j < t ==> vx_rows_claimed(vx_pre, #[trigger] vx_m[keys[j]], keys[j], vx_m[keys[j]].length as int),
+        vx_rows_claimed(vx_pre, vx_m[keys[t]], keys[t], r),
+        forall|s: int| 0 <= s < vx_pre.len() && (#[trigger] vx_pre[s]) is Some ==> vx_claimed_by(s, vx_fr, vx_fr.len() as int, vx_m, keys, t, r),
+    ensures
+        vx_free_claimed(vx_new, vx_fr, vx_fr.len() as int),
+        forall|j: int| 0 <= j < t ==> vx_rows_claimed(vx_new, #[trigger] vx_m[keys[j]], keys[j], vx_m[keys[j]].length as int),
+        vx_rows_claimed(vx_new, vx_m[keys[t]], keys[t], r + 1),
+        forall|s: int| 0 <= s < vx_new.len() && (#[trigger] vx_new[s]) is Some ==> vx_claimed_by(s, vx_fr, vx_fr.len() as int, vx_m, keys, t, r + 1),
+        vx_opt_active(vx_new) == vx_opt_active(vx_pre) + 1,
+{
+                let tb = vx_m[keys[t]];
+                let e = tb.ids()[r];
+                assert(tb.key() == keys[t]);
+                assert(vx_new == vx_pre.update(e.index as int, vx_row_slot(tb, keys[t], r)));
+                lemma_opt_claim(vx_pre, e.index as int, vx_row_slot(tb, keys[t], r));
+                // nothing claimed before sits at the index just claimed (it was None)
+                assert forall|j: int| 0 <= j < vx_fr.len() implies (#[trigger] vx_fr[j]).index != e.index by {
+                    assert(vx_pre[vx_fr[j].index as int] is Some);
+                }
+                assert(vx_free_claimed(vx_new, vx_fr, vx_fr.len() as int));
+                assert forall|j: int| 0 <= j < t implies vx_rows_claimed(vx_new, #[trigger] vx_m[keys[j]], keys[j], vx_m[keys[j]].length as int) by {
+                    let tj = vx_m[keys[j]];
+                    assert(vx_rows_claimed(vx_pre, tj, keys[j], tj.length as int));
+                    assert forall|q: int| 0 <= q < tj.length implies (#[trigger] tj.ids()[q]).index < vx_new.len() && vx_new[tj.ids()[q].index as int] == vx_row_slot(tj, keys[j], q) by {
+                        assert(vx_pre[tj.ids()[q].index as int] is Some);
+                    }
+                }
+                assert(vx_rows_claimed(vx_new, tb, keys[t], r + 1)) by {
+                    assert forall|q: int| 0 <= q < r + 1 implies (#[trigger] tb.ids()[q]).index < vx_new.len() && vx_new[tb.ids()[q].index as int] == vx_row_slot(tb, keys[t], q) by {
+                        if q < r { assert(vx_pre[tb.ids()[q].index as int] is Some); }
+                    }
+                }
+                assert forall|s: int| 0 <= s < vx_new.len() && (#[trigger] vx_new[s]) is Some implies vx_claimed_by(s, vx_fr, vx_fr.len() as int, vx_m, keys, t, r + 1) by {
+                    if s == e.index as int {
+                        assert(0 <= r < r + 1 && t < keys.len() && vx_m[keys[t]].ids()[r].index == s);
+                    } else {
+                        assert(vx_pre[s] is Some);
+                        assert(vx_claimed_by(s, vx_fr, vx_fr.len() as int, vx_m, keys, t, r));
+                        if exists|q: int| 0 <= q < r && t < keys.len() && (#[trigger] vx_m[keys[t]].ids()[q]).index == s {
+                            let q = choose|q: int| 0 <= q < r && t < keys.len() && (#[trigger] vx_m[keys[t]].ids()[q]).index == s;
+                            assert(0 <= q < r + 1 && t < keys.len() && vx_m[keys[t]].ids()[q].index == s);
+                        }
+                    }
+                }
+
+}
+
+// ---- C06/C11: exact characterisation of the inputs from_serialized_parts accepts
+pub open spec fn vx_row_in<R: Registry>(m: IMap<archetype::IdentifierRef<R>, archetype::Archetype<R>>, k: archetype::IdentifierRef<R>, r: int) -> bool {
+    m.dom().contains(k) && 0 <= r < m[k].length
+}
+/// slot `s` is named by a free entry or by a stored row
+pub open spec fn vx_covered<R: Registry>(s: int, fr: Seq<entity::Identifier>, m: IMap<archetype::IdentifierRef<R>, archetype::Archetype<R>>) -> bool {
+    ||| exists|j: int| 0 <= j < fr.len() && (#[trigger] fr[j]).index == s
+    ||| exists|k: archetype::IdentifierRef<R>, r: int| vx_row_in(m, k, r) && (#[trigger] m[k].ids()[r]).index == s
+}
+pub open spec fn vx_valid_a(length: int, fr: Seq<entity::Identifier>) -> bool { forall|j: int| 0 <= j < fr.len() ==> (#[trigger] fr[j]).index < length }
+pub open spec fn vx_valid_b(fr: Seq<entity::Identifier>) -> bool { forall|a: int, b: int| 0 <= a < b < fr.len() ==> (#[trigger] fr[a]).index != (#[trigger] fr[b]).index }
+pub open spec fn vx_valid_c<R: Registry>(length: int, m: IMap<archetype::IdentifierRef<R>, archetype::Archetype<R>>) -> bool {
+    forall|k: archetype::IdentifierRef<R>, r: int| vx_row_in(m, k, r) ==> (#[trigger] m[k].ids()[r]).index < length
+}
+pub open spec fn vx_valid_d<R: Registry>(m: IMap<archetype::IdentifierRef<R>, archetype::Archetype<R>>) -> bool {
+    forall|k1: archetype::IdentifierRef<R>, r1: int, k2: archetype::IdentifierRef<R>, r2: int|
+        vx_row_in(m, k1, r1) && vx_row_in(m, k2, r2) && (k1 != k2 || r1 != r2) ==> (#[trigger] m[k1].ids()[r1]).index != (#[trigger] m[k2].ids()[r2]).index
+}
+pub open spec fn vx_valid_e<R: Registry>(fr: Seq<entity::Identifier>, m: IMap<archetype::IdentifierRef<R>, archetype::Archetype<R>>) -> bool {
+    forall|j: int, k: archetype::IdentifierRef<R>, r: int| 0 <= j < fr.len() && vx_row_in(m, k, r) ==> (#[trigger] fr[j]).index != (#[trigger] m[k].ids()[r]).index
+}
+pub open spec fn vx_valid_f<R: Registry>(length: int, fr: Seq<entity::Identifier>, m: IMap<archetype::IdentifierRef<R>, archetype::Archetype<R>>) -> bool {
+    forall|s: int| 0 <= s < length ==> #[trigger] vx_covered(s, fr, m)
+}
+/// the serialized (length, free list) and the table set describe one allocator: every index
+/// 0..length is named exactly once, by a free entry or by a stored row
+#[verifier::opaque]
+pub open spec fn vx_valid_parts<R: Registry>(length: int, fr: Seq<entity::Identifier>, m: IMap<archetype::IdentifierRef<R>, archetype::Archetype<R>>) -> bool {
+    vx_valid_a(length, fr) && vx_valid_b(fr) && vx_valid_c(length, m) && vx_valid_d(m) && vx_valid_e(fr, m) && vx_valid_f(length, fr, m)
+}
+/// the free list as `Serialize for Allocator` writes it: (index, generation of that slot), in order
+pub open spec fn vx_ser_free<R: Registry>(a: Allocator<R>) -> Seq<entity::Identifier> {
+    Seq::new(a.free@.len(), |j: int| entity::Identifier { index: a.free@[j], generation: a.slots@[a.free@[j] as int].generation })
+}
+/// C06: what a well-formed world serializes is accepted (allocator leg): the parts of any
+/// allocator that satisfies the world invariant with a table set are valid -- also for any other
+/// table set with the same identifier columns (validity only reads `ids()`)
+pub proof fn lemma_wf_world_parts_valid<R: Registry>(a: Allocator<R>, m: IMap<archetype::IdentifierRef<R>, archetype::Archetype<R>>)
+    requires a.wf(), forall|k: archetype::IdentifierRef<R>| m.dom().contains(k) ==> (#[trigger] m[k]).agrees(&a) && m[k].key() == k, vx_de_ids_stored(m, &a),
+    ensures vx_valid_parts(a.slots@.len() as int, vx_ser_free(a), m)
+{ reveal(vx_valid_parts);
+    let fr = vx_ser_free(a);
+    let length = a.slots@.len() as int;
+    a.lemma_slots_len_fits();
+    assert(vx_valid_a(length, fr));
+    assert(vx_valid_b(fr));
+    assert(vx_valid_c(length, m)) by {
+        assert forall|k: archetype::IdentifierRef<R>, r: int| vx_row_in(m, k, r) implies (#[trigger] m[k].ids()[r]).index < length by { assert(m[k].agrees(&a)); }
+    }
+    assert(vx_valid_d(m)) by {
+        assert forall|k1: archetype::IdentifierRef<R>, r1: int, k2: archetype::IdentifierRef<R>, r2: int|
+            vx_row_in(m, k1, r1) && vx_row_in(m, k2, r2) && (k1 != k2 || r1 != r2) implies (#[trigger] m[k1].ids()[r1]).index != (#[trigger] m[k2].ids()[r2]).index by {
+            assert(m[k1].agrees(&a)); assert(m[k2].agrees(&a));
+            let i1 = m[k1].ids()[r1]; let i2 = m[k2].ids()[r2];
+            if i1.index == i2.index {
+                assert(i1.generation == i2.generation);
+                assert(i1 == i2);
+                assert(a.view()[i1] == (Location { identifier: k1, index: r1 as usize }));
+                assert(a.view()[i2] == (Location { identifier: k2, index: r2 as usize }));
+            }
+        }
+    }
+    assert(vx_valid_e(fr, m)) by {
+        assert forall|j: int, k: archetype::IdentifierRef<R>, r: int| 0 <= j < fr.len() && vx_row_in(m, k, r) implies (#[trigger] fr[j]).index != (#[trigger] m[k].ids()[r]).index by {
+            assert(m[k].agrees(&a));
+            assert(a.slots@[a.free@[j] as int].location is None);
+        }
+    }
+    assert(vx_valid_f(length, fr, m)) by {
+        assert forall|s: int| 0 <= s < length implies #[trigger] vx_covered(s, fr, m) by {
+            if a.slots@[s].location is None {
+                assert(a.free@.contains(s as usize));
+                let j = choose|j: int| 0 <= j < a.free@.len() && a.free@[j] == s as usize;
+                assert(fr[j].index == s);
+            } else {
+                let id = entity::Identifier { index: s as usize, generation: a.slots@[s].generation };
+                assert(a.resolves(id));
+                let l = a.view()[id];
+                assert(vx_row_in(m, l.identifier, l.index as int) && m[l.identifier].ids()[l.index as int].index == s);
+            }
+        }
+    }
+}
+
+/// validity only reads the identifier columns: it carries over to any other table set that holds
+/// the same columns under other (pairwise distinct) keys -- e.g. the tables a deserializer rebuilt
+pub proof fn lemma_valid_rekey<R: Registry>(length: int, fr: Seq<entity::Identifier>,
+    m: IMap<archetype::IdentifierRef<R>, archetype::Archetype<R>>, m2: IMap<archetype::IdentifierRef<R>, archetype::Archetype<R>>,
+    f: IMap<archetype::IdentifierRef<R>, archetype::IdentifierRef<R>>)
+    requires
+        vx_valid_parts(length, fr, m),
+        forall|k: archetype::IdentifierRef<R>| m.dom().contains(k) ==> m2.dom().contains(#[trigger] f[k]) && m2[f[k]].ids() == m[k].ids() && m2[f[k]].length == m[k].length,
+        forall|k2: archetype::IdentifierRef<R>| m2.dom().contains(k2) ==> exists|k: archetype::IdentifierRef<R>| m.dom().contains(k) && #[trigger] f[k] == k2,
+        forall|k1: archetype::IdentifierRef<R>, k2: archetype::IdentifierRef<R>| m.dom().contains(k1) && m.dom().contains(k2) && #[trigger] f[k1] == #[trigger] f[k2] ==> k1 == k2,
+    ensures vx_valid_parts(length, fr, m2)
+{
+    reveal(vx_valid_parts);
+    let pre = |k2: archetype::IdentifierRef<R>| choose|k: archetype::IdentifierRef<R>| m.dom().contains(k) && #[trigger] f[k] == k2;
+    assert forall|k2: archetype::IdentifierRef<R>, r: int| vx_row_in(m2, k2, r) implies vx_row_in(m, pre(k2), r) && m[pre(k2)].ids()[r] == (#[trigger] m2[k2].ids()[r]) by {
+        let k = pre(k2);
+        assert(m.dom().contains(k) && f[k] == k2);
+    }
+    assert(vx_valid_c(length, m2)) by {
+        assert forall|k2: archetype::IdentifierRef<R>, r: int| vx_row_in(m2, k2, r) implies (#[trigger] m2[k2].ids()[r]).index < length by {
+            assert(vx_row_in(m, pre(k2), r));
+            assert(m[pre(k2)].ids()[r].index < length);
+        }
+    }
+    assert(vx_valid_d(m2)) by {
+        assert forall|k1: archetype::IdentifierRef<R>, r1: int, k2: archetype::IdentifierRef<R>, r2: int|
+            vx_row_in(m2, k1, r1) && vx_row_in(m2, k2, r2) && (k1 != k2 || r1 != r2) implies (#[trigger] m2[k1].ids()[r1]).index != (#[trigger] m2[k2].ids()[r2]).index by {
+            let p1 = pre(k1); let p2 = pre(k2);
+            assert(vx_row_in(m, p1, r1) && vx_row_in(m, p2, r2));
+            assert(f[p1] == k1 && f[p2] == k2);
+            assert(p1 != p2 || r1 != r2);
+            assert(m[p1].ids()[r1].index != m[p2].ids()[r2].index);
+        }
+    }
+    assert(vx_valid_e(fr, m2)) by {
+        assert forall|j: int, k2: archetype::IdentifierRef<R>, r: int| 0 <= j < fr.len() && vx_row_in(m2, k2, r) implies (#[trigger] fr[j]).index != (#[trigger] m2[k2].ids()[r]).index by {
+            assert(vx_row_in(m, pre(k2), r));
+            assert(fr[j].index != m[pre(k2)].ids()[r].index);
+        }
+    }
+    assert(vx_valid_f(length, fr, m2)) by {
+        assert forall|s: int| 0 <= s < length implies #[trigger] vx_covered(s, fr, m2) by {
+            assert(vx_covered(s, fr, m));
+            if !(exists|j: int| 0 <= j < fr.len() && (#[trigger] fr[j]).index == s) {
+                let (k, r) = choose|k: archetype::IdentifierRef<R>, r: int| vx_row_in(m, k, r) && (#[trigger] m[k].ids()[r]).index == s;
+                assert(vx_row_in(m2, f[k], r) && m2[f[k]].ids()[r].index == s);
+            }
+        }
+    }
+}
+// ---- every error exit contradicts validity
+pub proof fn lemma_site_free_oob<R: Registry>(length: int, fr: Seq<entity::Identifier>, m: IMap<archetype::IdentifierRef<R>, archetype::Archetype<R>>, j: int)
+    requires 0 <= j < fr.len(), fr[j].index >= length,
+    ensures !vx_valid_parts(length, fr, m)
+{ reveal(vx_valid_parts); if vx_valid_a(length, fr) { assert(fr[j].index < length); } }
+pub proof fn lemma_site_free_dup<R: Registry>(length: int, fr: Seq<entity::Identifier>, m: IMap<archetype::IdentifierRef<R>, archetype::Archetype<R>>, j: int, sl: Seq<Option<Slot<R>>>)
+    requires 0 <= j < fr.len(), fr[j].index < sl.len(), sl[fr[j].index as int] is Some,
+             forall|s: int| 0 <= s < sl.len() && (#[trigger] sl[s]) is Some ==> (exists|j2: int| 0 <= j2 < j && (#[trigger] fr[j2]).index == s),
+    ensures !vx_valid_parts(length, fr, m)
+{ reveal(vx_valid_parts);
+    let j2 = choose|j2: int| 0 <= j2 < j && (#[trigger] fr[j2]).index == fr[j].index as int;
+    if vx_valid_b(fr) { assert(fr[j2].index != fr[j].index); }
+}
+pub proof fn lemma_site_row_oob<R: Registry>(length: int, fr: Seq<entity::Identifier>, m: IMap<archetype::IdentifierRef<R>, archetype::Archetype<R>>, k: archetype::IdentifierRef<R>, r: int)
+    requires vx_row_in(m, k, r), m[k].ids()[r].index >= length,
+    ensures !vx_valid_parts(length, fr, m)
+{ reveal(vx_valid_parts); if vx_valid_c(length, m) { assert(m[k].ids()[r].index < length); } }
+pub proof fn lemma_site_row_dup<R: Registry>(length: int, fr: Seq<entity::Identifier>, m: IMap<archetype::IdentifierRef<R>, archetype::Archetype<R>>,
+    keys: Seq<archetype::IdentifierRef<R>>, t: int, r: int)
+    requires vx_enum(m, keys), 0 <= t < keys.len(), 0 <= r < m[keys[t]].length,
+             vx_claimed_by(m[keys[t]].ids()[r].index as int, fr, fr.len() as int, m, keys, t, r),
+    ensures !vx_valid_parts(length, fr, m)
+{ reveal(vx_valid_parts);
+    let s = m[keys[t]].ids()[r].index as int;
+    assert(keys.contains(keys[t]));
+    assert(vx_row_in(m, keys[t], r));
+    if exists|j: int| 0 <= j < fr.len() && (#[trigger] fr[j]).index == s {
+        let j = choose|j: int| 0 <= j < fr.len() && (#[trigger] fr[j]).index == s;
+        if vx_valid_e(fr, m) { assert(fr[j].index != m[keys[t]].ids()[r].index); }
+    } else if exists|j: int, q: int| 0 <= j < t && 0 <= q < m[keys[j]].length && (#[trigger] m[keys[j]].ids()[q]).index == s {
+        let (j, q) = choose|j: int, q: int| 0 <= j < t && 0 <= q < m[keys[j]].length && (#[trigger] m[keys[j]].ids()[q]).index == s;
+        assert(keys.contains(keys[j]));
+        assert(vx_row_in(m, keys[j], q));
+        assert(keys[j] != keys[t]);
+        if vx_valid_d(m) { assert(m[keys[j]].ids()[q].index != m[keys[t]].ids()[r].index); }
+    } else {
+        let q = choose|q: int| 0 <= q < r && t < keys.len() && (#[trigger] m[keys[t]].ids()[q]).index == s;
+        assert(vx_row_in(m, keys[t], q));
+        if vx_valid_d(m) { assert(m[keys[t]].ids()[q].index != m[keys[t]].ids()[r].index); }
+    }
+}
+pub proof fn lemma_site_missing<R: Registry>(length: int, fr: Seq<entity::Identifier>, m: IMap<archetype::IdentifierRef<R>, archetype::Archetype<R>>,
+    keys: Seq<archetype::IdentifierRef<R>>, sl: Seq<Option<Slot<R>>>, s: int)
+    requires vx_enum(m, keys), sl.len() == length, 0 <= s < length, sl[s] is None,
+             vx_free_claimed(sl, fr, fr.len() as int),
+             forall|j: int| 0 <= j < keys.len() ==> vx_rows_claimed(sl, #[trigger] m[keys[j]], keys[j], m[keys[j]].length as int),
+    ensures !vx_valid_parts(length, fr, m)
+{ reveal(vx_valid_parts);
+    if vx_valid_f(length, fr, m) {
+        assert(vx_covered(s, fr, m));
+        if exists|j: int| 0 <= j < fr.len() && (#[trigger] fr[j]).index == s {
+            let j = choose|j: int| 0 <= j < fr.len() && (#[trigger] fr[j]).index == s;
+            assert(sl[fr[j].index as int] == vx_free_slot::<R>(fr[j]));
+        } else {
+            let (k, r) = choose|k: archetype::IdentifierRef<R>, r: int| vx_row_in(m, k, r) && (#[trigger] m[k].ids()[r]).index == s;
+            assert(keys.contains(k));
+            let j = choose|j: int| 0 <= j < keys.len() && keys[j] == k;
+            assert(vx_rows_claimed(sl, m[keys[j]], keys[j], m[keys[j]].length as int));
+            assert(sl[m[k].ids()[r].index as int] == vx_row_slot(m[k], k, r));
+        }
+    }
+}
+/// and an accepted input is valid
+pub proof fn lemma_ok_parts_valid<R: Registry>(sl: Seq<Option<Slot<R>>>, fr: Seq<entity::Identifier>,
+    m: IMap<archetype::IdentifierRef<R>, archetype::Archetype<R>>, keys: Seq<archetype::IdentifierRef<R>>)
+    requires
+        vx_enum(m, keys),
+        vx_free_claimed(sl, fr, fr.len() as int),
+        forall|j: int| 0 <= j < keys.len() ==> vx_rows_claimed(sl, #[trigger] m[keys[j]], keys[j], m[keys[j]].length as int),
+        forall|s: int| 0 <= s < sl.len() && (#[trigger] sl[s]) is Some ==> vx_claimed_by(s, fr, fr.len() as int, m, keys, keys.len() as int, 0),
+        forall|s: int| 0 <= s < sl.len() ==> (#[trigger] sl[s]) is Some,
+    ensures vx_valid_parts(sl.len() as int, fr, m)
+{ reveal(vx_valid_parts);
+    let length = sl.len() as int;
+    assert forall|k: archetype::IdentifierRef<R>, r: int| vx_row_in(m, k, r) implies (#[trigger] m[k].ids()[r]).index < length && sl[m[k].ids()[r].index as int] == vx_row_slot(m[k], k, r) by {
+        assert(keys.contains(k));
+        let j = choose|j: int| 0 <= j < keys.len() && keys[j] == k;
+        assert(vx_rows_claimed(sl, m[keys[j]], keys[j], m[keys[j]].length as int));
+    }
+    assert(vx_valid_a(length, fr));
+    assert(vx_valid_b(fr));
+    assert(vx_valid_c(length, m));
+    assert(vx_valid_d(m)) by {
+        assert forall|k1: archetype::IdentifierRef<R>, r1: int, k2: archetype::IdentifierRef<R>, r2: int|
+            vx_row_in(m, k1, r1) && vx_row_in(m, k2, r2) && (k1 != k2 || r1 != r2) implies (#[trigger] m[k1].ids()[r1]).index != (#[trigger] m[k2].ids()[r2]).index by {
+            if m[k1].ids()[r1].index == m[k2].ids()[r2].index {
+                assert(vx_row_slot(m[k1], k1, r1) == vx_row_slot(m[k2], k2, r2));
+                assert(vx_row_slot(m[k1], k1, r1)->0.location->0.identifier == k1);
+                assert(vx_row_slot(m[k1], k1, r1)->0.location->0.index == r1 as usize);
+            }
+        }
+    }
+    assert(vx_valid_e(fr, m)) by {
+        assert forall|j: int, k: archetype::IdentifierRef<R>, r: int| 0 <= j < fr.len() && vx_row_in(m, k, r) implies (#[trigger] fr[j]).index != (#[trigger] m[k].ids()[r]).index by {
+            assert(sl[fr[j].index as int] == vx_free_slot::<R>(fr[j]));
+        }
+    }
+    assert(vx_valid_f(length, fr, m)) by {
+        assert forall|s: int| 0 <= s < length implies #[trigger] vx_covered(s, fr, m) by {
+            assert(sl[s] is Some);
+            assert(vx_claimed_by(s, fr, fr.len() as int, m, keys, keys.len() as int, 0));
+            if exists|j: int, q: int| 0 <= j < keys.len() && 0 <= q < m[keys[j]].length && (#[trigger] m[keys[j]].ids()[q]).index == s {
+                let (j, q) = choose|j: int, q: int| 0 <= j < keys.len() && 0 <= q < m[keys[j]].length && (#[trigger] m[keys[j]].ids()[q]).index == s;
+                assert(keys.contains(keys[j]));
+                assert(vx_row_in(m, keys[j], q));
+            }
+        }
+    }
+}
+
 impl<R> Allocator<R> where R: Registry {
     #[verifier::loop_isolation(false)]
     pub fn from_serialized_parts(length: usize, free: Vec<entity::Identifier>, archetypes: &Archetypes<R>) -> (r: Result<Allocator<R>, VxErr>)
@@ -1844,6 +2544,9 @@ impl<R> Allocator<R> where R: Registry {
             r is Ok ==> r->Ok_0.wf(),
             r is Ok ==> forall|k: archetype::IdentifierRef<R>| archetypes@.dom().contains(k) ==> (#[trigger] archetypes@[k]).agrees(&r->Ok_0),
             r is Ok ==> vx_de_ids_stored(archetypes@, &r->Ok_0),
+            r is Ok ==> r->Ok_0.active_count() == vx_total_rows(archetypes@),
+            vx_valid_parts(length as int, free@, archetypes@) ==> r is Ok,
+            r is Ok ==> vx_valid_parts(length as int, free@, archetypes@),
             r is Ok ==> r->Ok_0.slots@.len() == length,
             r is Ok ==> r->Ok_0.free@.len() == free@.len() && forall|j: int| 0 <= j < free@.len() ==> r->Ok_0.free@[j] == (#[trigger] free@[j]).index,
             r is Ok ==> forall|j: int| 0 <= j < free@.len() ==> (#[trigger] free@[j]).index < length && r->Ok_0.slots@[free@[j].index as int].generation == free@[j].generation,
@@ -1852,14 +2555,17 @@ impl<R> Allocator<R> where R: Registry {
 let ghost vx_m = archetypes@; let ghost vx_fr = free@; let ghost mut vx_c: int = 0; let ghost mut vx_pre = Seq::<Option<Slot<R>>>::empty();
 
         let mut slots = vx_vec_none::<Slot<R>>(length);
+proof { lemma_opt_none(slots@); }
+
         for entity_identifier in vx_it1: free.iter() 
             invariant
                 vx_c == vx_it1.index@,
                 slots@.len() == length,
                 vx_free_claimed(slots@, vx_fr, vx_c),
+                vx_opt_active(slots@) == 0,
                 forall|s: int| 0 <= s < slots@.len() && (#[trigger] slots@[s]) is Some ==> (exists|j: int| 0 <= j < vx_c && (#[trigger] vx_fr[j]).index == s),
 {
-proof { vx_pre = slots@; }
+proof { vx_pre = slots@; if entity_identifier.index >= slots@.len() { lemma_site_free_oob(length as int, vx_fr, vx_m, vx_c); } else if slots@[entity_identifier.index as int] is Some { lemma_site_free_dup(length as int, vx_fr, vx_m, vx_c, slots@); } }
             if entity_identifier.index >= slots.len() { return Err(vx_custom_error()); }
             if slots[entity_identifier.index].is_some() { return Err(vx_custom_error()); }
             slots.set(entity_identifier.index, Some(Slot {
@@ -1874,6 +2580,7 @@ proof {
                 assert forall|j: int| 0 <= j < k implies (#[trigger] vx_fr[j]).index != e.index by {
                     assert(vx_pre[vx_fr[j].index as int] is Some);
                 }
+                lemma_opt_claim(vx_pre, e.index as int, vx_free_slot::<R>(e));
                 assert(vx_free_claimed(slots@, vx_fr, k + 1));
                 assert forall|s: int| 0 <= s < slots@.len() && (#[trigger] slots@[s]) is Some implies (exists|j: int| 0 <= j < k + 1 && (#[trigger] vx_fr[j]).index == s) by {
                     if s == e.index as int { assert(vx_fr[k].index == s); }
@@ -1889,12 +2596,14 @@ proof {
         }
 
         let vx_keys1 = archetypes.raw_archetypes.vx_keys(); let vx_n1 = archetypes.raw_archetypes.vx_len(vx_keys1); let mut vx_i1: usize = 0;
+proof { assert(vx_keys1@.take(0).len() == 0); }
  while vx_i1 < vx_n1 
             invariant
                 vx_i1 <= vx_n1 && vx_n1 == vx_keys1@.len(),
                 slots@.len() == length,
                 vx_free_claimed(slots@, vx_fr, vx_fr.len() as int),
                 forall|j: int| 0 <= j < vx_i1 ==> vx_rows_claimed(slots@, #[trigger] vx_m[vx_keys1@[j]], vx_keys1@[j], vx_m[vx_keys1@[j]].length as int),
+                vx_opt_active(slots@) == vx_sum_keys(vx_m, vx_keys1@.take(vx_i1 as int)),
                 forall|s: int| 0 <= s < slots@.len() && (#[trigger] slots@[s]) is Some ==> vx_claimed_by(s, vx_fr, vx_fr.len() as int, vx_m, vx_keys1@, vx_i1 as int, 0),
             decreases vx_n1 - vx_i1
 {
@@ -1910,12 +2619,13 @@ proof { assert(vx_keys1@.contains(vx_keys1@[vx_i1 as int])); assert(vx_m.dom().c
                 vx_free_claimed(slots@, vx_fr, vx_fr.len() as int),
                 forall|j: int| 0 <= j < vx_i1 ==> vx_rows_claimed(slots@, #[trigger] vx_m[vx_keys1@[j]], vx_keys1@[j], vx_m[vx_keys1@[j]].length as int),
                 vx_rows_claimed(slots@, vx_m[vx_keys1@[vx_i1 as int]], vx_keys1@[vx_i1 as int], i as int),
+                vx_opt_active(slots@) == vx_sum_keys(vx_m, vx_keys1@.take(vx_i1 as int)) + i,
                 forall|s: int| 0 <= s < slots@.len() && (#[trigger] slots@[s]) is Some ==> vx_claimed_by(s, vx_fr, vx_fr.len() as int, vx_m, vx_keys1@, vx_i1 as int, i as int),
             decreases archetype.length - i
 {
  let entity_identifier = &archetype.entity_identifiers[i];
 
-proof { vx_pre = slots@; assert(vx_keys1@.contains(vx_keys1@[vx_i1 as int])); assert(vx_m.dom().contains(vx_keys1@[vx_i1 as int])); assert(archetype.wf()); assert(archetype.ids()[i as int] == archetype.entity_identifiers@[i as int]); }
+proof { vx_pre = slots@; assert(vx_keys1@.contains(vx_keys1@[vx_i1 as int])); assert(vx_m.dom().contains(vx_keys1@[vx_i1 as int])); assert(archetype.wf()); assert(archetype.ids()[i as int] == archetype.entity_identifiers@[i as int]); assert(vx_row_in(vx_m, vx_keys1@[vx_i1 as int], i as int)); if entity_identifier.index >= slots@.len() { lemma_site_row_oob(length as int, vx_fr, vx_m, vx_keys1@[vx_i1 as int], i as int); } else if slots@[entity_identifier.index as int] is Some { lemma_site_row_dup(length as int, vx_fr, vx_m, vx_keys1@, vx_i1 as int, i as int); } }
                 if entity_identifier.index >= slots.len() { return Err(vx_custom_error()); }
             if slots[entity_identifier.index].is_some() { return Err(vx_custom_error()); }
             slots.set(entity_identifier.index, Some(Slot {
@@ -1928,42 +2638,9 @@ proof { vx_pre = slots@; assert(vx_keys1@.contains(vx_keys1@[vx_i1 as int])); as
                         }));
             
 proof {
-                let t = vx_i1 as int;
-                let tb = vx_m[vx_keys1@[t]];
-                let r = i as int;
-                let e = tb.ids()[r];
-                assert(e == *entity_identifier);
-                assert(tb.key() == vx_keys1@[t]);
-                assert(slots@ == vx_pre.update(e.index as int, vx_row_slot(tb, vx_keys1@[t], r)));
-                // nothing claimed before sits at the index just claimed (it was None)
-                assert forall|j: int| 0 <= j < vx_fr.len() implies (#[trigger] vx_fr[j]).index != e.index by {
-                    assert(vx_pre[vx_fr[j].index as int] is Some);
-                }
-                assert(vx_free_claimed(slots@, vx_fr, vx_fr.len() as int));
-                assert forall|j: int| 0 <= j < t implies vx_rows_claimed(slots@, #[trigger] vx_m[vx_keys1@[j]], vx_keys1@[j], vx_m[vx_keys1@[j]].length as int) by {
-                    let tj = vx_m[vx_keys1@[j]];
-                    assert(vx_rows_claimed(vx_pre, tj, vx_keys1@[j], tj.length as int));
-                    assert forall|q: int| 0 <= q < tj.length implies (#[trigger] tj.ids()[q]).index < slots@.len() && slots@[tj.ids()[q].index as int] == vx_row_slot(tj, vx_keys1@[j], q) by {
-                        assert(vx_pre[tj.ids()[q].index as int] is Some);
-                    }
-                }
-                assert(vx_rows_claimed(slots@, tb, vx_keys1@[t], r + 1)) by {
-                    assert forall|q: int| 0 <= q < r + 1 implies (#[trigger] tb.ids()[q]).index < slots@.len() && slots@[tb.ids()[q].index as int] == vx_row_slot(tb, vx_keys1@[t], q) by {
-                        if q < r { assert(vx_pre[tb.ids()[q].index as int] is Some); }
-                    }
-                }
-                assert forall|s: int| 0 <= s < slots@.len() && (#[trigger] slots@[s]) is Some implies vx_claimed_by(s, vx_fr, vx_fr.len() as int, vx_m, vx_keys1@, t, r + 1) by {
-                    if s == e.index as int {
-                        assert(0 <= r < r + 1 && t < vx_keys1@.len() && vx_m[vx_keys1@[t]].ids()[r].index == s);
-                    } else {
-                        assert(vx_pre[s] is Some);
-                        assert(vx_claimed_by(s, vx_fr, vx_fr.len() as int, vx_m, vx_keys1@, t, r));
-                        if exists|q: int| 0 <= q < r && t < vx_keys1@.len() && (#[trigger] vx_m[vx_keys1@[t]].ids()[q]).index == s {
-                            let q = choose|q: int| 0 <= q < r && t < vx_keys1@.len() && (#[trigger] vx_m[vx_keys1@[t]].ids()[q]).index == s;
-                            assert(0 <= q < r + 1 && t < vx_keys1@.len() && vx_m[vx_keys1@[t]].ids()[q].index == s);
-                        }
-                    }
-                }
+                assert(vx_m[vx_keys1@[vx_i1 as int]].ids()[i as int] == *entity_identifier);
+                assert(vx_m[vx_keys1@[vx_i1 as int]].key() == vx_keys1@[vx_i1 as int]);
+                lemma_de_row(vx_pre, slots@, vx_fr, vx_m, vx_keys1@, vx_i1 as int, i as int);
             }
  i += 1;
  }
@@ -1973,6 +2650,7 @@ proof {
             let t = vx_i1 as int;
             let tb = vx_m[vx_keys1@[t]];
             assert(i == tb.length);
+            lemma_sum_take_step(vx_m, vx_keys1@, t);
             assert forall|s: int| 0 <= s < slots@.len() && (#[trigger] slots@[s]) is Some implies vx_claimed_by(s, vx_fr, vx_fr.len() as int, vx_m, vx_keys1@, t + 1, 0) by {
                 assert(vx_claimed_by(s, vx_fr, vx_fr.len() as int, vx_m, vx_keys1@, t, tb.length as int));
                 if exists|q: int| 0 <= q < tb.length && t < vx_keys1@.len() && (#[trigger] vx_m[vx_keys1@[t]].ids()[q]).index == s {
@@ -1997,6 +2675,7 @@ proof {
 {
  let slot = &slots[i];
 
+proof { if slots@[i as int] is None { lemma_site_missing(length as int, vx_fr, vx_m, vx_keys1@, slots@, i as int); } }
             if slot.is_none() {
                 return Err(vx_custom_error());
             }
@@ -2025,66 +2704,9 @@ proof { vx_c = 0; }
 proof { vx_c = vx_c + 1; }
  }
 proof {
-            let n = vx_keys1@.len() as int;
-            let a = Allocator::<R> { slots: vx_slots, free: vx_free };
-            assert(a.slots@.len() == vx_sl.len());
-            assert forall|s: int| 0 <= s < vx_sl.len() implies (#[trigger] a.slots@[s]) == vx_sl[s]->0 && vx_sl[s] is Some by { }
-            // free list: in bounds, inactive, distinct
-            assert forall|j: int| 0 <= j < a.free@.len() implies (#[trigger] a.free@[j]) < a.slots@.len() && a.slots@[a.free@[j] as int].location is None by {
-                assert(a.free@[j] == vx_fr[j].index);
-                assert(vx_sl[vx_fr[j].index as int] == vx_free_slot::<R>(vx_fr[j]));
-            }
-            assert forall|i: int, j: int| 0 <= i < j < a.free@.len() implies a.free@[i] != a.free@[j] by {
-                assert(vx_fr[i].index != vx_fr[j].index);
-            }
-            // complete: an inactive slot was claimed by a free entry (rows claim active slots)
-            assert forall|s: int| 0 <= s < a.slots@.len() && (#[trigger] a.slots@[s]).location is None implies a.free@.contains(s as usize) by {
-                assert(vx_sl[s] is Some);
-                assert(vx_claimed_by(s, vx_fr, vx_fr.len() as int, vx_m, vx_keys1@, n, 0));
-                if exists|j: int, q: int| 0 <= j < n && 0 <= q < vx_m[vx_keys1@[j]].length && (#[trigger] vx_m[vx_keys1@[j]].ids()[q]).index == s {
-                    let (j, q) = choose|j: int, q: int| 0 <= j < n && 0 <= q < vx_m[vx_keys1@[j]].length && (#[trigger] vx_m[vx_keys1@[j]].ids()[q]).index == s;
-                    assert(vx_rows_claimed(vx_sl, vx_m[vx_keys1@[j]], vx_keys1@[j], vx_m[vx_keys1@[j]].length as int));
-                    assert(vx_sl[s] == vx_row_slot(vx_m[vx_keys1@[j]], vx_keys1@[j], q));
-                    assert(false);
-                }
-                let j = choose|j: int| 0 <= j < vx_fr.len() && (#[trigger] vx_fr[j]).index == s;
-                assert(a.free@[j] == s as usize);
-            }
-            assert(a.wf());
-            // every table agrees with the allocator
-            assert forall|k: archetype::IdentifierRef<R>| vx_m.dom().contains(k) implies (#[trigger] vx_m[k]).agrees(&a) by {
-                assert(vx_keys1@.contains(k));
-                let j = choose|j: int| 0 <= j < n && vx_keys1@[j] == k;
-                let tb = vx_m[k];
-                assert(tb.key() == k);
-                assert(vx_rows_claimed(vx_sl, vx_m[vx_keys1@[j]], vx_keys1@[j], vx_m[vx_keys1@[j]].length as int));
-                assert forall|q: int| 0 <= q < tb.length implies a.resolves(#[trigger] tb.ids()[q])
-                    && a.view()[tb.ids()[q]] == (Location { identifier: tb.key(), index: q as usize }) by {
-                    assert(vx_sl[tb.ids()[q].index as int] == vx_row_slot(tb, k, q));
-                }
-            }
-            // every accepted identifier is stored
-            assert forall|id: entity::Identifier| a.resolves(id) implies ({
-                let l = #[trigger] a.view()[id];
-                vx_m.dom().contains(l.identifier) && l.index < vx_m[l.identifier].length && vx_m[l.identifier].ids()[l.index as int] == id
-            }) by {
-                let s = id.index as int;
-                assert(vx_sl[s] is Some);
-                assert(vx_claimed_by(s, vx_fr, vx_fr.len() as int, vx_m, vx_keys1@, n, 0));
-                if exists|j: int| 0 <= j < vx_fr.len() && (#[trigger] vx_fr[j]).index == s {
-                    let j = choose|j: int| 0 <= j < vx_fr.len() && (#[trigger] vx_fr[j]).index == s;
-                    assert(vx_sl[s] == vx_free_slot::<R>(vx_fr[j]));
-                    assert(false);
-                }
-                let (j, q) = choose|j: int, q: int| 0 <= j < n && 0 <= q < vx_m[vx_keys1@[j]].length && (#[trigger] vx_m[vx_keys1@[j]].ids()[q]).index == s;
-                let tb = vx_m[vx_keys1@[j]];
-                assert(vx_keys1@.contains(vx_keys1@[j]));
-                assert(vx_m.dom().contains(vx_keys1@[j]));
-                assert(vx_rows_claimed(vx_sl, tb, vx_keys1@[j], tb.length as int));
-                assert(vx_sl[s] == vx_row_slot(tb, vx_keys1@[j], q));
-                assert(tb.ids()[q].generation == id.generation && tb.ids()[q].index == id.index);
-                assert(tb.ids()[q] == id);
-            }
+            assert(vx_keys1@.take(vx_keys1@.len() as int) =~= vx_keys1@);
+            lemma_de_end(vx_sl, vx_fr, vx_m, vx_keys1@, Allocator::<R> { slots: vx_slots, free: vx_free });
+            lemma_ok_parts_valid(vx_sl, vx_fr, vx_m, vx_keys1@);
         }
         Ok(Self { slots: vx_slots, free: vx_free })
     
